@@ -7,7 +7,7 @@ import routing_gen as rg
 
 MLS = ("routing",)
 HARNESSES = ()
-THEOREMS = ["C05_exactly_once", "C05_no_third_party_intact", "C05_only_sends_forward", "C05_delivered", "C05_fifo",
+THEOREMS = ["C05_exactly_once", "C05_copies_only_to_eavesdroppers", "C05_copies_once", "C05_no_third_party_intact", "C05_only_sends_forward", "C05_delivered", "C05_fifo",
             "C05_undeliverable_no_owner", "C05_refused_opens_nothing", "C05_undeliverable_partial", "C05_two_errors_refuted"]
 
 NONTRIVIAL = {"call-delivered", "call-delivered-noreply", "signal-delivered", "reply-delivered", "other-delivered",
@@ -40,7 +40,7 @@ def burst_cases(rnd, n):
 def gen_cases(tier, rnd):
     cases = [c for c in rg.scenarios() if c[1][0] == 0]
     cases += rc.load_corpus("C05")
-    n_plain, n_timed, n_burst = (450, 6, 50) if tier == "quick" else (30000, 600, 3000)
+    n_plain, n_timed, n_burst = (700, 6, 50) if tier == "quick" else (30000, 600, 3000)
     for i in range(n_plain):
         cfg = (0, rnd.choice((2, 3, 50, 50)), -1)
         cases.append((("pipe-gen%d" if i % 3 == 0 else "gen%d") % i, cfg, rg.gen_history(rnd, cfg, "c05", rnd.randint(6, 18))))
@@ -66,7 +66,9 @@ def run(ctx):
         "evaluations": len(cases), "distinct_nontrivial": len(r["nontrivial"]),
         "rule": "histories of 5-18 events over up to 4 live raw clients under an allow-everything policy: all four message types with and without "
                 "NO_REPLY_EXPECTED / NO_AUTO_START, destinations = unique names (live, own, gone, never assigned) and three well-known names, "
-                "RequestName with every flag combination / ReleaseName / disconnect interleaved (ownership changes between sends), unix fds to peers "
+                "RequestName with every flag combination / ReleaseName / disconnect interleaved (ownership changes between sends), AddMatch by senders, "
+                "recipients and bystanders (eavesdrop='true' or not; type / sender / destination keys, including rules matching the holder's own "
+                "incoming unicast traffic), unix fds to peers "
                 "with and without fd passing, max_replies_per_connection in {2,3,50}; ordered bursts from one sender to a name whose owner changes; "
                 "every forwarded message compared field by field with what was written (all header fields but SENDER, signature, body, fd count); "
                 "after each event every live client is drained behind a driver round trip, so absence at third parties is observed.  "
@@ -82,6 +84,6 @@ def run(ctx):
         "model coq/Routing/Routing.v is hand-written; tied to the code by the correspondence run only",
         "who owns a name is computed by the model's copy of the RequestName/ReleaseName queue rules (property C04 specifies them); the oracle takes the owner from there",
         "every event is fully processed before the next one is written (round-trip barriers): concurrent senders, slow readers and the libdbus outgoing queue are not explored here",
-        "eavesdropping / monitors / match rules are absent from the configuration (C07, C18); service activation is not configured (C19): an unowned name is an error",
+        "match rules: only the keys eavesdrop, type, sender, destination on unicast messages (full match-rule semantics and broadcasts: C07; monitors: C18); service activation is not configured (C19): an unowned name is an error",
         "out-of-memory paths are outside the model (C14)",
     ]
